@@ -28,7 +28,7 @@ import (
 //     free between its neighbours); TTLs are symbolic. Used for the obligations expected to hold.
 //   grid (grid=1): the harness steps happen at base + k*unit with symbolic k (named gaps), each step is
 //     instantaneous and TTLs are (K+1/2)*unit, so that no comparison made by the code is an exact tie. A model
-//     of this mode is a schedule that the native replay re-enacts with real sleeps (unit = 4 ms) against
+//     of this mode is a schedule that the native replay re-enacts with real sleeps (unit = 10 ms, absolute schedule) against
 //     the real clock. Used where a violation is expected (jitter > 0, diverging TTLs).
 
 const verifK11OneYear = time.Hour * 24 * 365
